@@ -4,6 +4,7 @@ import (
 	"encoding/json"
 	"fmt"
 	"sort"
+	"strings"
 
 	"github.com/peterstace/simplefeatures/geom"
 	"verif/engine"
@@ -476,6 +477,14 @@ func c16Main(r *engine.Run) {
 			if p := engine.SafeCall(func() { c16One(r, g, c) }); p != nil {
 				r.Violation("C16/panic", "shape", c, fmt.Sprint(p))
 			}
+			if ct != geom.DimXY && strings.Contains(s.String(), "Y") {
+				// rings whose closing vertex carries its own Z/M
+				c.Sup = "cell-distinct-close"
+				g := universe.Build(s, ct, &universe.CellSupplier{DistinctClose: true})
+				if p := engine.SafeCall(func() { c16One(r, g, c) }); p != nil {
+					r.Violation("C16/panic", "shape", c, fmt.Sprint(p))
+				}
+			}
 			if ct != geom.DimXY && (s.HasEmptyMember() || s.Depth() >= 2) {
 				r.Nontrivial(fmt.Sprint(s.String(), ct))
 			}
@@ -496,7 +505,7 @@ func c16Replay(r *engine.Run, sub string, raw json.RawMessage) error {
 	if err := json.Unmarshal(raw, &c); err != nil {
 		return err
 	}
-	g := universe.Build(universe.Shapes(c.D, c.W)[c.Idx], geom.CoordinatesType(c.CT), &universe.CellSupplier{})
+	g := universe.Build(universe.Shapes(c.D, c.W)[c.Idx], geom.CoordinatesType(c.CT), &universe.CellSupplier{DistinctClose: c.Sup == "cell-distinct-close"})
 	c16One(r, g, c)
 	return nil
 }
